@@ -1015,6 +1015,162 @@ fn asserts(thorough: bool) -> Vec<String> {
     ops
 }
 
+/// The oracle looks at every block: hand-built trees (never shown to the code under test) whose only
+/// offence sits in a later block must each be flagged with the expected key.
+fn oracle_selftest(report: &mut Report) {
+    let ok = |k: &str| (k.to_string(), lit("x"));
+    let bound = |kind: &str| Some(json!([w_kind(kind, "t")]));
+    let cases: Vec<(&str, Value)> = vec![
+        ("immutable-payload", plan(false, vec![update(eh("t"), vec![update_action(Block::Fields, &[ok("note")], None), update_action(Block::Fields, &[], None), update_action(Block::Attributes, &[ok("a")], None),
+            update_action(Block::Fields, &[ok("b"), ok("confidence")], None)], bound("Assertion"))])),
+        ("structural-on-record", plan(false, vec![update(eh("t"), vec![update_action(Block::Attributes, &[ok("a")], None), update_action(Block::Facet, &[ok("b")], None), update_action(Block::UnsetStructural, &[ok("f")], None)], bound("Evidence"))])),
+        ("engine-owned-key", plan(false, vec![update(ep("t"), vec![update_action(Block::Attributes, &[ok("a")], None), update_action(Block::Attributes, &[], None), update_action(Block::UnsetFacet, &[ok("b"), ok("space_seq")], None)], None)])),
+        ("duplicate-key", plan(false, vec![update(ep("t"), vec![update_action(Block::Attributes, &[ok("a")], None), update_action(Block::Facet, &[ok("a"), ok("c"), ok("a")], None)], None)])),
+        ("engine-owned-key", {
+            let mut c = create_concept("s");
+            c["CreateConcept"]["set_facets"] = json!([{"facet": {"Name": "A"}, "values": [["a", lit("x")]]}, {"facet": {"Name": "B"}, "values": []}, {"facet": {"Name": "C"}, "values": [["b", lit("x")], ["governance", lit("x")]]}]);
+            plan(false, vec![c])
+        }),
+        ("engine-owned-key", {
+            let mut c = upsert_concept("s");
+            c["UpsertConcept"]["unset_facets"] = json!([{"facet": {"Name": "A"}, "fields": ["a"]}, {"facet": {"Name": "B"}, "fields": ["b", "_system"]}]);
+            plan(false, vec![c])
+        }),
+        ("handle-unbound", plan(false, vec![update(ep("t"), vec![update_action(Block::Attributes, &[ok("a")], None), update_action(Block::SetStructural, &[("f".to_string(), handle("nobody"))], None)], None)])),
+    ];
+    for (key, tree) in cases {
+        if !oracle::check(&tree).iter().any(|v| v.key == key) {
+            report.disagreement("oracle self-test: the independent safety walk missed an offence in a later block", &[format!("json {tree}")], key, "not flagged");
+        }
+    }
+    report.hit("oracle_selftest_done");
+}
+
+/// Every guard × every place it has to look: k = 2..4 blocks (actions of one kind, or of kinds writing
+/// the same plane) with the offending key in block j for every j, after harmless and after empty
+/// blocks, for every UPDATE target binding; the repeated SET FACET / UNSET FACET lists of the other
+/// families; both routes.
+fn multi_block(env: &mut Env) -> Vec<String> {
+    let mut ops = Vec::new();
+    let mut push = |env: &mut Env, clauses: Vec<Value>, label: &str| {
+        let mut cmd = plan(clauses.len() > 1, clauses);
+        fix_filters(&mut cmd, &env.filter_sample);
+        env.report.hit(&format!("multiblock:{label}"));
+        ops.extend(ops_of(&cmd, &[PLAIN, QUOTED]));
+    };
+    let harmless = |i: usize| vec![(format!("h{i}"), lit("x"))];
+    // (label, offending entries) per guard that looks at keys
+    let key_guards: Vec<(&str, Vec<(String, Value)>)> = vec![
+        ("engine-owned", vec![("z".to_string(), lit("x")), ("governance".to_string(), lit("x"))]),
+        ("engine-owned-system", vec![("_system".to_string(), lit("x"))]),
+        ("duplicate", vec![("d".to_string(), lit("x")), ("e".to_string(), lit("x")), ("d".to_string(), lit("y"))]),
+        ("payload-assertion", vec![("confidence".to_string(), num(1))]),
+        ("payload-evidence", vec![("q".to_string(), lit("x")), ("payload".to_string(), lit("x"))]),
+        ("payload-proposition", vec![("object".to_string(), lit("x"))]),
+        ("unbound-handle", vec![("r".to_string(), handle("nobody"))]),
+        ("foreign-read", vec![("r".to_string(), dotted("other", "score"))]),
+        ("bad-arity", vec![("r".to_string(), expr_bad_arity("t"))]),
+    ];
+    let targets: Vec<(&str, Value, Option<Value>)> = update_targets().into_iter().filter(|(n, _, _)| ["param", "Concept", "Assertion", "Evidence", "Proposition", "Activity", "union-assertion", "not-concept+assertion", "concept+proposition"].contains(n)).collect();
+    let key_blocks = [Block::Fields, Block::Attributes, Block::Facet, Block::UnsetAttributes, Block::UnsetFacet];
+    for (label, offending) in &key_guards {
+        for (_, target, wh) in &targets {
+            for k in 2..=4usize {
+                for j in 0..k {
+                    // (a) k actions of one kind
+                    for kind in key_blocks {
+                        let acts: Vec<Value> = (0..k).map(|i| update_action(kind, if i == j { offending } else { &[] }, None)).zip(0..k).map(|(a, i)| if i == j { a } else { update_action(kind, &harmless(i), None) }).collect();
+                        push(env, vec![update(target.clone(), acts, wh.clone())], label);
+                    }
+                    // (b) the offending SET FIELDS / block after an empty block of the same kind
+                    if j > 0 {
+                        for kind in [Block::Fields, Block::Attributes] {
+                            let acts: Vec<Value> = (0..k).map(|i| if i == j { update_action(kind, offending, None) } else if i + 1 == j { update_action(kind, &[], None) } else { update_action(kind, &harmless(i), None) }).collect();
+                            push(env, vec![update(target.clone(), acts, wh.clone())], label);
+                        }
+                    }
+                    // (c) mixed kinds: the other actions are of different kinds (same or other plane)
+                    for kind in key_blocks {
+                        let acts: Vec<Value> = (0..k).map(|i| if i == j { update_action(kind, offending, None) } else { update_action(key_blocks[(i + 1) % key_blocks.len()], &harmless(i), None) }).collect();
+                        push(env, vec![update(target.clone(), acts, wh.clone())], label);
+                    }
+                }
+            }
+        }
+    }
+    // structural actions at every position among harmless ones, for every target binding
+    for (_, target, wh) in &targets {
+        for k in 2..=4usize {
+            for j in 0..k {
+                for kind in [Block::SetStructural, Block::UnsetStructural] {
+                    let entries = vec![("has_step".to_string(), param("x"))];
+                    let acts: Vec<Value> = (0..k).map(|i| if i == j { update_action(kind, &entries, None) } else { update_action(key_blocks[i % key_blocks.len()], &harmless(i), None) }).collect();
+                    push(env, vec![update(target.clone(), acts, wh.clone())], "structural");
+                    // an empty UNSET STRUCTURAL / an unbound handle / a bad arity in a later structural block
+                    let acts: Vec<Value> = (0..k).map(|i| if i == j { update_action(Block::UnsetStructural, &[], None) } else { update_action(Block::SetStructural, &entries, None) }).collect();
+                    push(env, vec![update(target.clone(), acts, wh.clone())], "structural-empty-unset");
+                    let bad = vec![("has_step".to_string(), if kind == Block::SetStructural { handle("nobody") } else { expr_bad_arity("t") })];
+                    let acts: Vec<Value> = (0..k).map(|i| update_action(kind, if i == j { &bad } else { &entries }, None)).collect();
+                    push(env, vec![update(target.clone(), acts, wh.clone())], "structural-value");
+                }
+            }
+        }
+    }
+    // the repeated blocks of the other families: SET FACET lists everywhere, UNSET FACET lists in UPSERT, and
+    // the offending key in a different block kind than the harmless ones
+    for (label, offending) in key_guards.iter().filter(|(l, _)| l.starts_with("engine") || *l == "duplicate" || *l == "unbound-handle" || *l == "bad-arity") {
+        for family in FAMILIES {
+            for k in 2..=4usize {
+                for j in 0..k {
+                    if let Some(mut c) = site_clause(family, Block::Facet, &[], None) {
+                        let fam = c.as_object().unwrap().keys().next().unwrap().clone();
+                        c[&fam]["set_facets"] = Value::Array((0..k).map(|i| {
+                            let e = if i == j { offending.clone() } else if i + 1 == j { vec![] } else { harmless(i) };
+                            json!({"facet": {"Name": format!("F{i}")}, "values": e.iter().map(|(k, v)| json!([k, v])).collect::<Vec<_>>()})
+                        }).collect());
+                        push(env, vec![c], label);
+                    }
+                    if *family == "UpsertConcept" && !label.contains("handle") && !label.contains("arity") {
+                        let mut c = upsert_concept("s");
+                        c["UpsertConcept"]["unset_facets"] = Value::Array((0..k).map(|i| {
+                            let e = if i == j { offending.clone() } else { harmless(i) };
+                            json!({"facet": {"Name": format!("F{i}")}, "fields": e.iter().map(|(k, _)| json!(k)).collect::<Vec<_>>()})
+                        }).collect());
+                        push(env, vec![c], label);
+                    }
+                }
+            }
+            // one clause, several block kinds: harmless everywhere but one
+            let blocks: Vec<Block> = BLOCKS.iter().copied().filter(|b| !matches!(b, Block::SetStructural | Block::UnsetStructural) && site_clause(family, *b, &[], None).is_some()).collect();
+            for bad in &blocks {
+                let mut c: Option<Value> = None;
+                for (i, b) in blocks.iter().enumerate() {
+                    let e = if b == bad { offending.clone() } else { harmless(i) };
+                    if matches!(b, Block::UnsetAttributes | Block::UnsetFacet) && (label.contains("handle") || label.contains("arity")) && b == bad {
+                        continue;
+                    }
+                    let donor = site_clause(family, *b, &e, None).unwrap();
+                    match c.as_mut() {
+                        None => c = Some(donor),
+                        Some(mine) => {
+                            let fam = donor.as_object().unwrap().keys().next().unwrap().clone();
+                            for f in ["set_fields", "set_attributes", "set_facets", "unset_attributes", "unset_facets", "values"] {
+                                if let Some(v) = donor[&fam].get(f) && !v.is_null() && v.as_array().is_some_and(|a| !a.is_empty()) {
+                                    mine[&fam][f] = v.clone();
+                                }
+                            }
+                        }
+                    }
+                }
+                if let Some(c) = c {
+                    push(env, vec![c], label);
+                }
+            }
+        }
+    }
+    ops
+}
+
 /// Systematic AST shapes, most of which the text grammar cannot produce (the validator has to refuse or
 /// accept them on its own): every `Option` none / some(empty) / some(non-empty), empty lists, repeated
 /// facets, empty / odd handles, every pair of handle-declaring families with one handle, nested
@@ -1221,6 +1377,12 @@ fn main() {
     }
     let ops = asserts(thorough);
     env.report.hit_n("generated:assert_ops", ops.len() as u64);
+    for op in &ops {
+        env.eval(op);
+    }
+    oracle_selftest(&mut env.report);
+    let ops = multi_block(&mut env);
+    env.report.hit_n("generated:multi_block_ops", ops.len() as u64);
     for op in &ops {
         env.eval(op);
     }
